@@ -1097,7 +1097,14 @@ async def _parse_action_body(
         if action_arg is None:
             raise HTTPBadRequest(reason="InvalidActionArgument")
         state_var = action_arg.related_state_variable
-        kwargs[arg.tag] = state_var.coerce_python(arg.text or "")
+        try:
+            kwargs[arg.tag] = state_var.coerce_python(arg.text or "")
+        except ValueError as exc:
+            raise HTTPBadRequest(reason="InvalidActionArgument") from exc
+
+    for action_arg in action.in_arguments():
+        if action_arg.name not in kwargs:
+            raise HTTPBadRequest(reason="InvalidActionArgument")
 
     return action_name, kwargs
 
